@@ -19,6 +19,7 @@ EXPLANATION = (
     "touching other entries (C04 deliver-by-key). Not decided: promptness as wall-clock time, races of expiry against "
     "arrival, byte-offset fault injection. Observation (not a finding, outside the quantifier): the async and WebSocket "
     "fail_all_pending take the writer lock before draining, so a writer stalled on a full socket delays failing the waiters."
+    " (late-response-only-misses-the-lookup, shared with C04) a late response is discarded only by missing the pending lookup - nothing filters responses in front of it; the guard's Drop adds to no collection."
 )
 ASSUMPTIONS = ["dropping an mpsc/oneshot Sender wakes its receiver with a Disconnected/RecvError", "tokio::spawn tasks run to completion or are dropped with the runtime"]
 
